@@ -96,6 +96,10 @@ def handle (op : String) (args : List String) (impl : String) : Option Verdict :
     -- property on the implementation's output: every delivered message is attributed to the authenticated remote peer
     let ok := (items impl ";").all fun it => (it.splitOn ":").headD "" == toString r
     return ⟨out, ok && impl != "panic" && impl != "hang", s!"attr:n={min ls.length 3}:delivered={min ms.length 3}:allok={ls.all (·.kind = "ok")}"⟩
+  | "cli", [t] => some <| Id.run do
+    let some topo := parseTopo t | return bad
+    let m := "ok:" ++ showNats topo.peers ++ "/" ++ toString topo.threshold
+    return ⟨m, impl == m, "cli(test)"⟩
   | "conn", [ta, tb, via] => some <| Id.run do
     let some pa := natList ta | return bad
     let some pb := natList tb | return bad
